@@ -4,6 +4,7 @@ import z3
 from vt.e1.values import (SIndexSet, SArr, SList, STT, SNum, SMaxRank, SInf, INF, SNone, NONE, SOpt, SFunc, SModule, SExc, Unsupported,
                           fresh, zi, zb, as_conc, is_conc_int, val_ite)
 from vt.e1 import npmodel
+from vt.e1.values import is_tag
 
 
 def kwargs_of(ex, node, state):
@@ -40,7 +41,7 @@ def call(ex, node, state):
             v = ex.ev(node.args[0], state)
             if is_conc_int(v) or isinstance(v, z3.ArithRef):
                 return v
-            if isinstance(v, tuple) and v and v[0] == 'intquot':
+            if is_tag(v, 'intquot'):
                 return v[1]
             raise Unsupported('int() of %s at line %d' % (type(v).__name__, line))
         if nm in ('all', 'any'):
@@ -69,11 +70,11 @@ def call(ex, node, state):
     fv = ex.ev(f, state)
     args = [ex.ev(a, state) for a in node.args]
     kw = kwargs_of(ex, node, state)
-    if isinstance(fv, tuple) and fv and fv[0] == 'modfunc':
+    if is_tag(fv, 'modfunc'):
         return modfunc(ex, state, fv[1], fv[2], args, kw, line)
-    if isinstance(fv, tuple) and fv and fv[0] == 'method':
+    if is_tag(fv, 'method'):
         return method(ex, state, fv[1], fv[2], args, kw, line, node)
-    if isinstance(fv, tuple) and fv and fv[0] == 'ttfunc':
+    if is_tag(fv, 'ttfunc'):
         return call_contract(ex, state, 'TT.' + fv[1], args, kw, line)
     raise Unsupported('call of %s at line %d' % (ast.unparse(f), line))
 
@@ -82,11 +83,11 @@ def isinstance_(ex, v, t, line):
     ts = t if (isinstance(t, tuple) and t and not isinstance(t[0], str)) else (t,)
     names = set()
     for x in ts:
-        if isinstance(x, tuple) and x and x[0] == 'type':
+        if is_tag(x, 'type'):
             names.add(x[1])
-        elif isinstance(x, tuple) and x and x[0] == 'TTclass':
+        elif is_tag(x, 'TTclass'):
             names.add('TT')
-        elif isinstance(x, tuple) and x and x[0] == 'modfunc' and x[2] == 'ndarray':
+        elif is_tag(x, 'modfunc') and x[2] == 'ndarray':
             names.add('ndarray')
         else:
             raise Unsupported('isinstance against %r at line %d' % (x, line))
@@ -393,7 +394,7 @@ def method(ex, state, obj, name, args, kw, line, node):
         if name == 'astype':
             return npmodel.new_arr(state, obj.shape, z3.BoolVal(args[0] == 'complex') if isinstance(args[0], str) else obj.cplx)
         raise Unsupported('ndarray.%s at line %d' % (name, line))
-    if isinstance(obj, tuple) and obj and obj[0] == 'squeezed':
+    if is_tag(obj, 'squeezed'):
         if name == 'reshape':
             return npmodel.reshape(ex, state, obj[1], shape_arg(args), line)
     raise Unsupported('method %s of %s at line %d' % (name, type(obj).__name__, line))
